@@ -4,6 +4,7 @@ CONSTANTS
   Chains <- TwoChains
   Methods <- SomeMethods
   Paths <- SomePaths
+  Counter <- CounterTuple
   MaxSeq = 1
   MaxUpd = 1
 INVARIANTS AckRelayerField
